@@ -56,7 +56,7 @@ class Check:
         self.violations = []  # (signature, what, replay_payload)
         self.known_hits = {}
         self.notes = {}
-        self.work = WORK / pid
+        self.work = WORK / f"{pid}_{os.getpid()}"      # unique per run: concurrent runs of one check must not share scratch
         shutil.rmtree(self.work, ignore_errors=True)
         self.work.mkdir(parents=True, exist_ok=True)
         self._known = [k for k in load_known() if k["property"] == pid and k.get("status", "open") == "open"]
